@@ -133,6 +133,9 @@ class Ctx:
             "violations": len(self.violations),
         }
         (EVIDENCE / f"{self.prop}.json").write_text(json.dumps(ev, indent=1, default=str) + "\n")
+        # the last run of EACH tier is kept as well (evidence/<id>.json is simply the most recent run)
+        (EVIDENCE / "by_tier" / self.tier).mkdir(parents=True, exist_ok=True)
+        (EVIDENCE / "by_tier" / self.tier / f"{self.prop}.json").write_text(json.dumps(ev, indent=1, default=str) + "\n")
         for f in self.findings:
             if f["id"] in self.known_hits:
                 print(f"KNOWN-FINDING: property={self.prop} {f['id']} {f['what']} ({self.known_hits[f['id']]} cases)", flush=True)
